@@ -228,3 +228,16 @@ Proof.
   assert (H1 : 0 <= z - x - y) by lra. assert (H2 : z - x - y <= z' - x - y) by lra.
   nra.
 Qed.
+
+(* the hypothesis mt_in_unit is needed: outside the unit cell the coded function is NOT the torus distance
+   ((0,0) and (2,0) are the same torus point but get distance 1).  koala only passes vertex positions and
+   plaquette centres, which it keeps in [0,1)^2 (checked on the implementation by C01/C02's spec checks). *)
+Example mt_periodic_outside_unit_refuted :
+  exists a b (k1 k2 : Z), mt_in_unit a /\ ~ mt_in_unit b /\
+    ~ mt_periodic_sq a b <= mt_euclid_sq a (mt_shift b k1 k2).
+Proof.
+  exists (0, 0), (2, 0), 2%Z, 0%Z. split; [| split].
+  - unfold mt_in_unit; cbn [fst snd]; lra.
+  - unfold mt_in_unit; cbn [fst snd]; lra.
+  - vm_compute. intros H. apply H. reflexivity.
+Qed.
